@@ -39,6 +39,17 @@ class Check:
                                 distinct=r["distinct"], wall_s=round(r["wall"], 1)))
         return r
 
+    def inductive(self, module, **kw):
+        """Apalache: inductive invariant of a design-level module, for every reachable state.  A refuted
+        invariant is a defect of the specification (Infra, like a failing design model); an Apalache
+        that is missing or does not finish is recorded in the evidence and decides nothing."""
+        r = core.apalache_inductive(self.rd, module, **kw)
+        self.models.append(dict(module=module, cfg="apalache IndInit/IndInv", generated=0, distinct=0,
+                                apalache=r.get("steps"), result=("proved" if r["ok"] else "not run: " + str(r.get("note", ""))[:200])))
+        if r["ok"] is False:
+            raise core.Infra("Apalache refutes the inductive invariant of %s: %s" % (module, r["steps"]))
+        return r
+
     def exec_and_validate(self, module, cmds, keyfn, accel=False, cost=None, shards=None,
                           result_keys=None, timeout=3000, tag="t", env=None, pure_budget=0,
                           families=("bits",), variant=None):
